@@ -80,6 +80,9 @@ func Generate(rng *rand.Rand, i int, thorough bool) *p2prig.Scenario {
 	switch rng.Intn(5) {
 	case 0:
 		s.InitialStore, s.PrefixLen = "prefix", 1+rng.Intn(s.HonestLen)
+		if rng.Intn(3) == 0 {
+			s.PrefixLen = s.HonestLen // the database is already in sync at start-up
+		}
 	case 1:
 		if !atTip && s.HonestLen-lastCp > 8 {
 			s.InitialStore, s.PrefixLen = "stale-fork", lastCp+rng.Intn(s.HonestLen-lastCp-4)
